@@ -7,6 +7,7 @@ import (
 	"math/rand"
 	"os"
 	"path/filepath"
+	"sort"
 	"strings"
 	"sync"
 	"time"
@@ -200,7 +201,7 @@ func checkC04(c *Ctx) {
 			if c.Thorough() || c17Seed(c.Seed, raw, "rootjson")%2 == 0 {
 				st.Submit(Job{Kind: "run", Prog: b2.Prog, Files: []FileIn{{Name: "in.json", Data: b2.Doc}}, Tag: string(raw), N: n | 1, WantJS: true})
 			}
-			if nv%binEvery == 0 && !b2.HasX {
+			if c17Seed(c.Seed, raw, "bin")%int64(binEvery) == 0 && !b2.HasX { // by vector, not by arrival (TLC's workers print in any order)
 				binCases = append(binCases, binCase{prog: b2.Prog, doc: b2.Doc, exp: v.Exp, dev: v.Dev, in: in, tag: string(raw), fam: "bin-heap"})
 			}
 		}})
@@ -284,7 +285,7 @@ func checkC04(c *Ctx) {
 				sels[k] = []string{sel}
 				std.Submit(Job{Kind: "run", Prog: ident[r.Intn(len(ident))], Files: files, Sels: []string{sel}, WantJS: true, Tag: string(raw), N: k << 2})
 			}
-			if nv%binEvery == 0 {
+			if c17Seed(c.Seed, raw, "bin")%int64(binEvery) == 0 {
 				k := r.Intn(len(v.Subs))
 				if k > 0 && sels[k] == nil {
 					k = 0
@@ -371,6 +372,15 @@ func checkC04(c *Ctx) {
 		var mu sync.Mutex
 		sem := make(chan struct{}, 12)
 		nbin := 0
+		sort.SliceStable(binCases, func(a, b int) bool {
+			if binCases[a].fam != binCases[b].fam {
+				return binCases[a].fam < binCases[b].fam
+			}
+			if binCases[a].tag != binCases[b].tag {
+				return binCases[a].tag < binCases[b].tag
+			}
+			return bytes.Compare(binCases[a].doc, binCases[b].doc) < 0
+		})
 		for i := range binCases {
 			bc := binCases[i]
 			mode := i % 4 // 0: -o - file, 1: -o FILE file, 2: -o - stdin, 3: -o FILE stdin
